@@ -18,25 +18,34 @@ BOUNDED_ONLY = ('No function of this property is under a discharged contract yet
                 'stand-in only (differential check of the real code against an independent executable reference at the '
                 'observation point, stated bound in the evidence). Level other, not proof.')
 
+STANDIN = ' The bounded stand-in (differential run of the real code against an independent executable reference, stated bound in the evidence) additionally runs on every check as a cross-check and decides the clauses listed as not under contract.'
+
 TEXTS = {
- 'C01': T('proof', PV + '; bounded stand-in for the matcher functions not yet under contract',
-          'Proved for all inputs and heaps: the slot search SectionType.getsectioninfo returns the first child, in schema order, '
-          'that reacts to a header (type, name) exactly as the specification slot_case/slot_search says (fixed name claims by name '
-          'then type; */+ slot claims by type or registered implementer; name rule), with the loop invariant "remaining search == '
-          'whole search"; the name rule isAllowedName/allowUnnamed; ismulti/issection/isabstract; gettype (unknown type rejected), '
-          'getsubtype; ValueInfo.convert (ValueError -> DataConversionError). The key routing, slot filling and completion logic of '
-          'matcher.py (addValue, addSection, finish) is NOT under contract yet and is decided by the bounded stand-in '
-          '(150 000 generated schema/text pairs per quick run against an independent reference).',
-          'Assumed: datatype and key-type callables are pure functions that return or raise ValueError; the representation '
-          'invariant children_wf of section types (established by schema construction, C10) is assumed at entry. Readings where the '
-          'statement is silent (DESIGN.md 4/5): slots are searched in schema order and the first slot that claims by type decides.'),
- 'C02': T('other', 'bounded stand-in (differential vs independent reference); one function under contract',
-          'Only ValueInfo.convert (converted value = datatype(value), conversion error carries value and position) is proved. The '
-          'value tree itself (matcher.finish/constuct, SectionValue) is decided by the bounded stand-in: recursive comparison of '
-          'getSectionAttributes()/values/name/type with an independent reference tree for ~110 000 accepted texts per quick run, '
-          'including aliasing of default containers.',
-          'Reading: the default attribute name is the normalised key name with "-" -> "_" (case of the attribute name is left '
-          'unspecified by the statement).'),
+ 'C01': T('other', PV + '; the conversion step (BaseMatcher.constuct) is an ASSUMED contract, cross-checked by the bounded stand-in',
+          'Proved for all inputs and heaps satisfying the representation invariant of section types: the slot search '
+          'getsectioninfo (first child in schema order that reacts to the header; fixed name claims by name then type, */+ slot by '
+          'type or registered implementer; name rule); key routing BaseMatcher.addValue (key-type normalisation, declared key or '
+          'wildcard, a section name is not a key, single-valued key / wildcard entry not filled twice, value and position recorded '
+          'in file order, whole-map postcondition); addSection (name reuse, single slot full); createChildMatcher / '
+          'SectionMatcher.__init__ (name rule, unnamed only for *); BaseMatcher.finish (completion: raises ConfigurationError iff '
+          'some child is incomplete = first_incomplete(...) >= 0, defaults filled in exactly as complete_slot says, loop invariant '
+          'over the children); ConfigLoader.startSection (unknown or abstract type refused), endSection (finish then addSection '
+          'under the header type and name), loadResource (new matcher per load, result built only after finish()). Matcher '
+          'invariants (slot kinds per child kind) are proved preserved by every one of these functions.',
+          'NOT proved: BaseMatcher.constuct (the datatype conversion of the collected values) is an assumed contract (listed in the '
+          'evidence): "every value converts under its declared datatype" rests on it and on the bounded stand-in. Assumed: datatype '
+          'and key-type callables are pure functions that return or raise ValueError; the representation invariant of section types '
+          '(children well-formed, attributes distinct) holds for schemas produced by the schema loader (C10 is bounded only).' + STANDIN),
+ 'C02': T('other', PV + ' for defaults / attributes / section value; conversion step assumed; bounded stand-in',
+          'Proved: every attribute starts empty in the kind-specific shape (matcher __init__); values are recorded in file order per '
+          'attribute and nothing else changes (addValue / addSection whole-map postconditions); finish() fills in the schema defaults '
+          'exactly where the text gave nothing (complete_slot; wildcard-key defaults all-or-nothing) and hands constuct that state '
+          '(ghost assertion at the call); getdefault returns a COPY (ownership obligation); SectionValue / createValue expose exactly '
+          'the attributes of the matcher, the section name and the matcher (type); SchemaMatcher.finish applies the schema datatype '
+          'to the top-level value; ValueInfo.convert = datatype(value) or DataConversionError with the value and its position.',
+          'NOT proved: BaseMatcher.constuct (conversion of lists / wildcard maps / sections) is an assumed contract conv_ok, '
+          'cross-checked by the bounded stand-in (~110 000 accepted texts per quick run against an independent reference tree). '
+          'Attribute-name derivation (schema.get_name_info) is not under contract.' + STANDIN),
  'C03': T('proof', PV + ' + leftmost-first automaton equivalence for the two line regexes (all string lengths)',
           'All 13 functions of cfgparser.ZConfigParser are verified against the line grammar written from the statement: nextline '
           '(strip, line count), the dispatch of parse (ghost assertions at every branch: skip only blank/# lines, </ closer, < opener, '
@@ -48,86 +57,138 @@ TEXTS = {
           'strings of every length and with CPython\'s leftmost-first semantics, to match exactly the specified shapes and to place every '
           'group boundary where the specification primitives kv_key/kv_value/sec_type/sec_name say.',
           'Assumed: readline() returns the next line incl. its newline or ""; the interface contracts of the parser context and of '
-          'section.addValue (proved separately for the real loader/matcher only where listed). The fold "whole text = sequence of '
-          'line steps" is not mechanised as one theorem; the per-line contracts and the dispatch assertions carry it, and the bounded '
-          'stand-in (5.6 M texts per quick run) checks it end to end.'),
+          'section.addValue. The fold "whole text = sequence of line steps" is carried by the per-line contracts and the dispatch '
+          'assertions, not stated as one theorem.' + STANDIN),
  'C04': T('proof', PV + ' + automaton equivalence for the name regex',
           'The real bodies of substitution._split, substitute and isname are verified, for all strings and all mappings, against '
           'specification functions written from the statement (split_spec/split_err: the four constructs and the four malformed cases; '
           'subst_spec: left-to-right fold without rescanning; loop invariant prepend(result, Subst(rest)) == Subst(s), variant '
           'len(rest)). Exceptional postconditions fix the error class, .source and .name. The regex _name_re is proved (all lengths, '
-          'leftmost-first) to match exactly a letter/underscore start and to end at the maximal munch.',
+          'leftmost-first) to match exactly a letter/underscore start and to end at the maximal munch. Refuted obligations are '
+          'replayed natively (function-level replay harness with environment control).',
           'Assumed: os.getenv(n) is the environment value or None; dict.get; "returned as is" is proved as equality of values, not '
-          'object identity.'),
+          'object identity.' + STANDIN),
  'C05': T('proof', PV,
-          'handle_define is verified against DefineStep from the statement: name = lower-cased first word, legal substitution name, '
+          'handle_define is verified against DefineStep from the statement (name = lower-cased first word, legal substitution name, '
           'value expanded once with the definitions read so far, accepted iff the name is new or the NEW EXPANDED value equals the '
-          'current one, namespace updated with the expanded value (whole-map postcondition), rejected with the namespace unchanged and '
-          'line/URL set. ZConfigParser.__init__ keeps the defines argument BY REFERENCE and creates a fresh empty namespace only for '
-          'None; handle_include passes the same dict object on; substitute looks names up lower-cased.',
-          'The loader side (top-level parser gets None, included parsers the caller\'s dict: ConfigLoader.includeConfiguration/'
-          '_parse_resource) is not under contract yet; "definitions never carry over between loads" and the include levels are '
-          'decided by the bounded stand-in (all sequences of up to 5 define/use/include items, each run twice).'),
- 'C06': T('other', PV + ' for the parser side; bounded relational stand-in for the property itself',
+          'current one, whole-map postcondition, rejected with the namespace unchanged and line/URL set). ZConfigParser.__init__ keeps '
+          'the defines argument BY REFERENCE and creates a fresh empty namespace only for None; handle_include passes the same object '
+          'on; ConfigLoader.includeConfiguration and _parse_resource hand exactly that object to the nested parser (ghost assertions '
+          'at the calls); ConfigLoader.loadResource starts every load with no definitions (two-argument call of _parse_resource, new '
+          'matcher); substitute looks names up lower-cased.',
+          'Assumed: the ParserContext interface contract between cfgparser and the loader.' + STANDIN),
+ 'C06': T('other', PV + ' for the code side; the inclusion lemma over the specification is not mechanised: bounded relational stand-in',
           'Proved code-side clauses: handle_include calls includeConfiguration(current section, urljoin(URL of the including '
-          'resource, expanded argument), the same defines object); every parser starts with its own empty stack, refuses to pop below '
-          'it and ends with it empty. The frame lemma "include = inlining" over the specification is not mechanised and '
-          'ConfigLoader.includeConfiguration is not under contract; the property is decided by the relational stand-in '
-          '(real load of the cut-up files vs real load of the inlined text, 50 000 cases per quick run).',
-          'Assumed: urllib urljoin implements RFC 3986 resolution; file system.'),
- 'C07': T('other', PV + ' (safety + escape obligations) for cfgparser/substitution; bounded mutation stand-in for the rest',
-          'For the 13 parser functions, substitute/_split and ValueInfo.convert every primitive that can raise an internal error '
-          '(subscripts, unpacking, attribute of None, dict lookup, pop, dynamic getattr dispatch, comparisons with None) is proved '
-          'unable to, and the raises clauses are proved complete: only exceptions of the ConfigurationError family escape. The matcher, '
-          'loader, cmdline and validator functions are not under contract yet; they are covered by the bounded stand-in (230 000 '
-          'mutated texts, override lists and include graphs per quick run).',
-          'Assumed: context/matcher interface contracts raise only ConfigurationError; recursion depth not modelled.'),
+          'resource, expanded argument), the same defines object); includeConfiguration normalises that URL, refuses a URL already '
+          'on the include stack, reads the fragment INTO THE SAME SECTION with the same definitions through a new parser, restores '
+          'the include stack on normal and exceptional exit and leaves no file open; every parser starts with its own empty stack, '
+          'refuses to pop below it and ends with it empty.',
+          'The frame lemma "include = inlining" over the specification functions is not mechanised; the property itself is decided '
+          'by the relational stand-in (real load of the cut-up files vs real load of the inlined text, 50 000 cases per quick run). '
+          'Assumed: urllib urljoin implements RFC 3986 resolution; file system.' + STANDIN),
+ 'C07': T('other', PV + ' (safety + escape obligations) for cfgparser, substitution, cmdline, matcher-facing loader functions; bounded mutation stand-in for the rest',
+          'For the 13 parser functions, substitute/_split, ValueInfo.convert, all of cmdline.py, ConfigLoader (loadResource, '
+          'startSection, endSection, includeConfiguration, _parse_resource), BaseLoader (openResource, loadURL, loadFile, '
+          '_raise_open_error): every primitive that can raise an internal error (subscripts, unpacking arity, attribute of None, dict '
+          'lookup, pop, dynamic getattr dispatch, comparisons with None, asserts, %-format arity) is proved unable to, and the raises '
+          'clauses are proved complete: only ConfigurationError-family exceptions escape, plus OSError while reading a stream '
+          '(environment fault) and a ValueError raised by the schema\'s own top-level datatype (allowed by the statement).',
+          'Not under contract: validator.main, openPackageResource, importSchemaComponent, schema parsing: bounded stand-in '
+          '(230 000 mutated texts, override lists and include graphs per quick run). Recursion depth not modelled.' + STANDIN),
  'C08': T('proof', PV,
           'Proved: error() raises ConfigurationSyntaxError carrying the current line and the resource URL; replace() decorates both '
           'substitution errors with line and URL; handle_key_value, handle_define, start_section and end_section re-raise or translate '
           'every configuration error with .lineno == current line and .url == resource URL, except that a DataConversionError that '
-          'already has a position (the line of the VALUE that failed) keeps it; the empty form <t/> goes through the same translation '
-          'as </t>; ValueInfo stores the position it is given and convert() raises DataConversionError with exactly that position, '
-          'the value and the original exception. nextline counts lines per resource.',
-          'The matcher side (BaseMatcher.addValue storing the position, constuct\'s placeholders) is assumed through the interface '
-          'contract Sink.addValue and checked by the bounded stand-in (46 000 single-fault injections per quick run).'),
- 'C09': T('proof', PV + ' + automaton language equivalence for the regex datatypes + binding obligations on the live registry',
+          'already has a line / URL (those of the VALUE that failed: ghost raised_lineno / raised_url) keeps exactly them - the '
+          'parser may only fill in a missing position, never replace one; the empty form <t/> goes through the same translation as '
+          '</t>; BaseMatcher.addValue stores exactly the position it is given and reports key-type errors at it; ValueInfo.convert '
+          'raises DataConversionError with that position, the value and the original exception; nextline counts lines per resource; '
+          'override values are fed with (line, column, source) positions.',
+          'Assumed: conversion errors raised inside constuct carry the stored position (assumed contract, bounded stand-in: 46 000 '
+          'single-fault injections per quick run).' + STANDIN),
+ 'C09': T('other', PV + ' + automaton language equivalence for the regex datatypes + binding obligations on the live registry; bounded stand-in for the datatypes not under contract',
           'Regex datatypes (basic-key, identifier, dotted-name, dotted-suffix, ipaddr-or-hostname): the live pattern under '
           '"prefix match then compare with the whole string" accepts exactly the specified language and loses no string of its plain '
           'language - for strings of every length. Function contracts proved for all inputs: RegularExpressionConversion.__call__, '
           'BasicKeyConversion.__call__ (lower-cased), asBoolean (exactly the six words, any case), integer, '
           'RangeCheckedConversion.__call__ (in range or ValueError), SuffixMultiplier.__call__ (loop invariant over the suffix '
           'table), IpaddrOrHostname.__call__. Binding obligations tie these to the stock registry (port range 0..65535, suffix '
-          'tables, default hosts, classes). inet-address, socket-address, timedelta, float, string-list are NOT under contract: '
-          'bounded stand-in only (17 M strings per quick run).',
-          'Assumed: int()/float() grammar is CPython\'s; socket.inet_pton defines valid IPv6. Whether a one-character host name is a '
-          'host name is left open by the statement and is not compared.'),
+          'tables, default hosts, classes).',
+          'inet-address, socket-address, timedelta, float, string-list are NOT under contract: bounded stand-in only (17 M strings '
+          'per quick run). Assumed: int()/float() grammar is CPython\'s; socket.inet_pton defines valid IPv6.' + STANDIN),
  'C10': T('other', 'bounded stand-in only', BOUNDED_ONLY + ' 110 generated rule-satisfying schema documents, every single '
           'rule-violating edit at every position, sampled pairs.', 'xml.sax assumed.'),
  'C11': T('other', 'bounded stand-in only', BOUNDED_ONLY + ' 1600 composed-vs-expanded scenarios x 40 texts.', 'xml.sax, import system assumed.'),
- 'C12': T('other', PV + ' for the slot search; bounded stand-in for %import',
+ 'C12': T('other', PV + ' for the slot search and the loader\'s type check; bounded stand-in for registration and %import',
           'Proved: an abstract slot takes a section iff its type name is a key of the slot type\'s implementer table '
           '(getsectioninfo/slot_case, getsubtype, hassubtype), for a fixed-name slot additionally the looked-up type must carry that '
-          'name; unknown type names are rejected by gettype. The registration side (schema.start_sectiontype), the refusal of the '
-          'abstract type itself (ConfigLoader.startSection) and %import (createDerivedSchema, importSchemaComponent) are not under '
-          'contract: bounded stand-in (46 000 load sequences per quick run). Known finding KF-C12-import-shared is open.',
-          'Import system assumed.'),
- 'C13': T('other', 'bounded stand-in only', BOUNDED_ONLY + ' Sequences of up to 6 operations against one schema object vs fresh schemas, '
-          'with a structural digest of the schema. Known finding KF-C13-import-shared is open.', ''),
- 'C14': T('other', 'bounded stand-in only', BOUNDED_ONLY + ' 90 000 (text, overrides) pairs: real load with overrides vs real load of the '
-          'hand-edited text.', ''),
+          'name; unknown type names are rejected by gettype; ConfigLoader.startSection refuses the abstract type itself; '
+          'handle_import hands the $-expanded package name to the context.',
+          'The registration side (schema.start_sectiontype) and %import (createDerivedSchema, importSchemaComponent) are not under '
+          'contract: bounded stand-in (46 000 load sequences per quick run). Known finding KF-C12-import-shared is open. Import '
+          'system assumed.' + STANDIN),
+ 'C13': T('other', PV + ' (frame and ownership obligations of the load path); bounded stand-in for the history clause',
+          'Proved: every function of the load path that is under contract (matcher.*, info slot search / getdefault / '
+          'ValueInfo, ConfigLoader.*) writes only objects named in its modifies clause - matcher and loader state, never a field of '
+          'a section type, info object or abstract type - or objects allocated by the call (frame obligation per heap write and per '
+          'call); getdefault results are new containers (ownership obligation); a load creates a new matcher and a new handler list.',
+          'importSchemaComponent / createDerivedSchema are not under contract (known finding KF-C13-import-shared); "equal outcome '
+          'after any history" is decided by the bounded stand-in (sequences of up to 6 operations against one schema object vs fresh '
+          'schemas, with a structural digest of the schema).' + STANDIN),
+ 'C14': T('other', PV + ' for every function of cmdline.py; the edit-equivalence lemma is not mechanised: bounded relational stand-in',
+          'Proved: addOption refuses exactly specifiers without "=" or with an empty path component and records (path split at "/", '
+          'value after the first "=", position) verbatim; OptionBag.__init__ sorts items into this section\'s keys (normalised by '
+          'the section key type, values in the order given) and items kept for child sections (bag_split fold); get_section_info '
+          'consumes exactly the items whose head equals the section NAME (case-normalised) or TYPE (basic-key), in order, heads '
+          'removed (sect_taken / sect_kept folds, loop invariants); MatcherMixin.addValue drops a file line iff its NORMALISED key is '
+          'overridden and otherwise behaves as BaseMatcher.addValue; createChildMatcher hands the first matching section its bag; '
+          'finish_optionbag feeds every override value verbatim through BaseMatcher.addValue with (line, column, source) and '
+          'finish() refuses leftovers; createSchemaMatcher wires the cooked bag to the schema matcher. Behavioural subtyping of the '
+          'overriding methods is an obligation: it fails for createChildMatcher = known finding KF-C14-override-imported-type.',
+          'The lemma "override = edit of the text" over the specification is not mechanised: relational stand-in (90 000 (text, '
+          'overrides) pairs, real load with overrides vs real load of the hand-edited text).' + STANDIN),
  'C15': T('other', PV + ' for the parser-side clauses; bounded relational stand-in for the property',
           'Proved code-side clauses: lines are stripped, blank/# lines skipped (parse dispatch), section type, name, closer type and '
           'define names are lower-cased before use, <t/> performs exactly open + close. The specification-level lemmas (rewrites '
           'commute with Events) are not mechanised; the relational stand-in decides the property (79 000 rewritten texts per quick run).',
-          ''),
- 'C16': T('other', 'bounded stand-in only', BOUNDED_ONLY + ' 480 000 handler placements / maps per quick run.', ''),
+          '' + STANDIN),
+ 'C16': T('other', PV + ' for CompositeHandler and the handler-list plumbing; handler entries of constuct assumed; bounded stand-in',
+          'Proved: CompositeHandler.__call__ (three loops with invariants): names normalised with the registry\'s basic-key '
+          'conversion (norm_map fold), ConfigurationError before any call iff two names normalise to the same key or some entry\'s '
+          'name is unmapped, otherwise every entry\'s callable is invoked exactly once, in entry order, with the entry\'s value, '
+          'entries mapped to None skipped (ghost call log GHOST.calls == old + calls_from(...)); if a handler raises, the calls made '
+          'are a prefix; __len__ == number of entries; child matchers share the parent\'s handler list object; '
+          'SchemaMatcher.finish appends the schema-level entry last with the converted top-level value; loadResource builds the '
+          'composite handler over the handler list of this load. Binding obligation: Registry().get("basic-key") is the stock '
+          'basic-key conversion.',
+          'The per-item entries appended by constuct (schema order, value identical to the tree\'s) are part of its assumed '
+          'contract: bounded stand-in (480 000 handler placements / maps per quick run).' + STANDIN),
  'C17': T('other', 'bounded stand-in only', BOUNDED_ONLY + ' 1.7 M texts: str() + reload must be a fixed point.', ''),
- 'C18': T('other', 'bounded stand-in only', BOUNDED_ONLY + ' 75 000 loads over directory layouts x four ways of naming the resource; all strings '
-          'to length 6 for the URL helpers.', 'urllib, os.path, file system assumed.'),
- 'C19': T('other', 'bounded stand-in only (exhaustive fault enumeration)', BOUNDED_ONLY + ' Every single failure point over 4 504 scenarios, exhaustive.',
-          ''),
- 'C20': T('other', 'bounded stand-in only', BOUNDED_ONLY + ' Level spellings, handler option combinations, 1 706 formats, 2 500 operation histories.',
-          'logging package assumed.'),
+ 'C18': T('other', PV + ' for isPath / normalizeURL / _url_from_file / join sites; urllib and the file system assumed; bounded stand-in',
+          'Proved: isPath(s) iff s has no RFC 3986 scheme or a one-letter one (automaton equivalence for _pathsep_rx); normalizeURL '
+          'turns a path into "file://" + pathname2url(abspath(path)), returns the fragment-free URL and raises ConfigurationError '
+          'iff there is a fragment; _url_from_file gives no URL for unnamed or <pseudo> files, else the file URL of the absolute '
+          'path; the parser URL is the URL of its resource and %include is joined against it.',
+          'The agreement of the four ways of naming a file is a consequence of ASSUMED contracts (urllib, os.path, file system); '
+          'url.urlnormalize/urljoin and the schema-side join sites (schema src / extends) are not under contract: bounded stand-in '
+          '(75 000 loads over directory layouts x four ways of naming the resource).' + STANDIN),
+ 'C19': T('other', PV + ' with a ghost counter of open files; schema-side loaders not under contract: exhaustive fault enumeration stand-in',
+          'Proved with the ghost GHOST.open_files (every open adds 1, every close of an open file subtracts 1): Resource.close / '
+          '__exit__ close the file once; openResource returns exactly one new open resource and closes the raw URL stream on every '
+          'path (read failure, decode failure); loadURL, loadFile, ConfigLoader.loadResource, includeConfiguration, _parse_resource '
+          'and the parser functions on the way (parse, handle_directive, handle_include, handle_import) leave the counter unchanged '
+          'on normal AND on every exceptional exit (loadFile additionally closes the caller\'s file).',
+          'SchemaLoader.loadResource, schema.parseResource / parseComponent, importSchemaComponent are not under contract (assumed '
+          'interface contract of the context): bounded stand-in enumerates every single failure point over 4 504 scenarios. Known '
+          'finding KF-C19-loader-reuse.' + STANDIN),
+ 'C20': T('other', PV + ' for level names, create-once factories and <logfile> option checking; logging package assumed; bounded stand-in for the rest',
+          'Proved: logging_level maps exactly the documented names (any letter case) to the documented numbers and otherwise accepts '
+          'exactly integers 0..50; Factory.__call__ calls create() at most once and returns the same object thereafter (ghost '
+          'creation counter); FileHandlerFactory.__init__ raises ValueError exactly for the refused option combinations (max-size, '
+          'old-files, when, delay, encoding for STDOUT/STDERR; rotation without old-files; both when and max-size; old-files or '
+          'interval alone).',
+          'Not decided by contracts (DESIGN 7): formatter rendering / format validation (%-formatting, str.format, string.Template), '
+          'effects on streams of reopen / close, the logging package itself: bounded stand-in (level spellings, handler option '
+          'combinations, 1 706 formats, 2 500 operation histories). Two known findings open.' + STANDIN),
 }
 NOT_APPLICABLE = {}
